@@ -4,7 +4,7 @@ from __future__ import annotations
 import ast
 import os
 import z3
-from .sorts import (V, VInt, VBool, VU, VNone, VOpt, VSlice, VTuple, VList, VRec, VConst, VRange,
+from .sorts import (VSeq, V, VInt, VBool, VU, VNone, VOpt, VSlice, VTuple, VList, VRec, VConst, VRange,
                     VUnknown, VFunc, Unsupported, parse_sort, fresh_value, fresh_name, coerce, leaves,
                     from_leaves, infer_sort, unify, sort_complete, ite, equal, list_get, list_append,
                     list_literal, default_value, z3sorts)
@@ -12,7 +12,7 @@ from .engine import ForkReq, RaiseReq, SpecError, State
 
 BUILTINS = {'len', 'abs', 'min', 'max', 'range', 'slice', 'isinstance', 'int', 'list', 'tuple', 'sorted',
             'enumerate', 'zip', 'reversed', 'iter', 'next', 'bool', 'hasattr', 'callable', 'str', 'any', 'all',
-            'sum', 'set', 'dict', 'frozenset', 'id', 'type', 'hash', 'getattr', 'repr', 'print'}
+            'sum', 'set', 'dict', 'frozenset', 'id', 'type', 'hash', 'getattr', 'repr', 'print', 'zip_longest', 'chain'}
 EXC_NAMES = {'RuntimeError', 'KeyError', 'IndexError', 'ValueError', 'TypeError', 'NotImplementedError',
              'StopIteration', 'AttributeError', 'Exception', 'ZeroDivisionError', 'LookupError'}
 SPECFNS = {'kind_is', 'np_result_type', 'W', 'frozen', 'same_array', 'dtype_class', 'implies', 'iff', 'forall', 'exists', 'forall_in', 'exists_in', 'old', 'cond', 's_start', 's_stop',
@@ -152,10 +152,17 @@ class ModuleEnv:
     def identical_model(self, a, b):
         return None
 
+    def contains_model(self, container, item, eng, st, node):
+        return None
+
     def list_slice(self, base: VList, idx: VSlice, eng, st):
         """xs[a:b:c] -> fresh list characterised by a quantified axiom."""
         n = base.length
         start, stop, step = slice_norm(idx, n)
+        sstep = z3.simplify(step)
+        if z3.is_int_value(sstep) and sstep.as_long() == 1:
+            ln = z3.If(stop > start, stop - start, 0)
+            return VSeq(ln, lambda i: list_get(base, start + i))
         out = fresh_value(('list', base.sort), 'sl')
         k = z3.Int(fresh_name('k'))
         st.define(out.length >= 0)
@@ -194,6 +201,8 @@ class ModuleEnv:
                 fv = self.lookup(f.id, eng)
             if isinstance(fv, VFunc):
                 return self.call_lambda(fv, [eng.ev(a, st) for a in node.args], eng, st)
+            if f.id in eng.c.get('calls', {}):
+                return self.apply_contract(f.id, node, eng, st, contract=eng.c['calls'][f.id])
             if isinstance(fv, VConst) and isinstance(fv.py, tuple):
                 tag = fv.py[0]
                 if tag == 'specfn':
@@ -267,8 +276,20 @@ class ModuleEnv:
         raise Unsupported(f'method {name} on {base!r}')
 
     # ---- builtins ---------------------------------------------------------------------------
+    def eval_args(self, node, eng, st):
+        args = []
+        for a in node.args:
+            if isinstance(a, ast.Starred):
+                v = eng.ev(a.value, st)
+                if not isinstance(v, VTuple):
+                    raise Unsupported('*args of a non-tuple')
+                args.extend(v.items)
+            else:
+                args.append(eng.ev(a, st))
+        return args
+
     def builtin(self, name, node, eng, st):
-        args = [eng.ev(a, st) for a in node.args]
+        args = self.eval_args(node, eng, st)
         kw = {k.arg: eng.ev(k.value, st) for k in node.keywords}
         if name == 'len' and len(args) == 1:
             a = args[0]
@@ -278,6 +299,14 @@ class ModuleEnv:
                 return VInt(len(a.items))
             if isinstance(a, VRange):
                 return VInt(self.range_len(a))
+            if isinstance(a, VSeq):
+                return VInt(a.length)
+            if isinstance(a, VRec) and 'labels' in a.fields:      # abstract index: len = number of labels
+                return VInt(a.fields['labels'].length)
+            if isinstance(a, VRec) and a.name == 'arr':
+                if not st.spec:
+                    eng.oblige(st, a.fields['ndim'].t >= 1, f'no-TypeError-len-0d@L{node.lineno}', 'safety', node)
+                return a.fields['rows']
             v = self.len_model(a, eng, st)
             if v is not None:
                 return v
@@ -314,6 +343,10 @@ class ModuleEnv:
             return VConst(('enumerate', args[0], start))
         if name == 'zip':
             return VConst(('zip', tuple(args)))
+        if name == 'zip_longest':
+            return VConst(('zip_longest', tuple(args), kw.get('fillvalue', VNone())))
+        if name == 'chain':
+            return VConst(('chain', tuple(args)))
         if name in ('int',) and len(args) == 1 and isinstance(args[0], (VInt, VBool)):
             return eng.need_int(args[0], st, node)
         if name == 'bool' and len(args) == 1:
@@ -377,6 +410,8 @@ class ModuleEnv:
                 return z3.BoolVal(val.name in names or bool(names & set(eng.c.get('rec_classes', {}).get(val.name, ()))))
             if isinstance(val, VConst) and isinstance(val.py, str):
                 return z3.BoolVal('str' in names)
+            if isinstance(val, VU):       # opaque element / label: an instance of none of the modelled classes
+                return z3.BoolVal('object' in names)
             raise Unsupported(f'isinstance of {val!r}')
         return static(v)
 
@@ -459,6 +494,15 @@ class ModuleEnv:
             for e in c.get('ensures', []):
                 st.pc.append(sb(e, 'assume'))
             return VConst(('genresult', ys))
+        if c.get('modifies_self') and recv is not None and not st.spec:
+            # frame condition: the receiver is replaced by a fresh value constrained only by the callee's postcondition
+            new_self = fresh_value(infer_sort(recv), 'self')
+            from .npmodel import wellformed_facts
+            st.pc.extend(wellformed_facts(new_self))
+            sub.old = dict(env)
+            sub.env = dict(env)
+            sub.env['self'] = new_self
+            eng.assign(st, node.func.value, new_self, None)
         rs = c.get('result')
         if rs is None:
             res = VUnknown(f'result of {key} (contract declares no result sort)')
